@@ -10,6 +10,8 @@ MC_NOTE = ("Trusted: TLC, the TLA+ specification as a faithful reading of the pr
 # id -> (built?, technique, level text, design ref, note)
 BOOK_TECH = "TLA+ spec (BookOps/BookProps/Book.tla) model-checked by TLC; TLC-generated histories replayed into the real OrderBook with full-state comparison; recorded random traces validated by TLC (BookTrace.tla)"
 
+ENV_TECH = "TLA+ spec (MarketOps.tla + EnvGen.tla): TLC enumerates every bounded path and, by power-set construction over all permutations, the complete set of outcomes allowed per path; real Env/MarketEnv run per path under several seeds: outcome-set membership (hook-free) + exact match for the hook-reported schedule"
+
 TABLE = {
     "C01": (BOOK_TECH + "; drain probe reveals queue order",
             "Model checking of the reference matching engine's priority clauses on the specification, exhaustive replay of every bounded history into the real book (every intermediate state compared, queue order revealed by a drain probe), and TLC validation of long random traces recorded from the real book.",
@@ -38,6 +40,18 @@ TABLE = {
     "C13": (BOOK_TECH + "; trading toggles at every position",
             "C13 clauses as TLC action properties; toggles at every position of bounded histories (crossing placements/modifications while disabled, aggressors after re-enabling, rejected market orders), books starting disabled; random traces with frequent toggles.",
             "6 C13"),
+    "C08": (ENV_TECH,
+            "For every bounded path of submissions and steps (new limit/market orders, cancels, modifies, several instructions per order, orders created in the same step, single- and multi-asset, trading toggled) TLC computes the complete set of (schedule, outcome) pairs the specification allows - a step is the fold of the plain-book event operator over a permutation at times start+i, then clock = start + step size, queue empty, per-step traded volume. The real environment is run on each path under several seeds: its full projection (books, pending queue via hook, cached level 2, recorded series) must be a member of the set (hook-free decision) and must equal the specification's outcome for the schedule the hook reports.",
+            "6 C08"),
+    "C10": (ENV_TECH,
+            "Every interleaving of submissions (including ones that would trade, cancel or re-price at once) and steps within the bounds; the specification changes only the queue and appends a New order, so full-projection equality after every submission is the property; cached level-2 = last record as TLC invariant and compared with the real env.level_2_data().",
+            "6 C10"),
+    "C11": (ENV_TECH,
+            "All recorded series (touch prices, side volumes, per-level volumes and counts, touch getters, per-step traded volume, and the record structure itself) are part of the compared projection for every path, on asymmetric books, level counts 1, 3, 10 and three assets; lengths = number of steps as TLC invariant.",
+            "6 C11"),
+    "C14": ("TLA+ spec (MarketOps.tla: asset -> BookOps record, shared clock) with TLC-generated histories replayed into Market<2>/Market<3> (MarketGen.tla) and outcome sets for MarketEnv (EnvGen.tla)",
+            "The specification is literally 'independent books sharing one clock'; every bounded history of direct operations over 2-3 assets with per-asset ticks (same local ids on several assets, per-asset and all-asset queries, reloads) is replayed into the real Market and compared asset by asset; independence as TLC action property; shuffled cross-asset batches through MarketEnv outcome sets.",
+            "6 C14"),
 }
 
 PENDING = {
@@ -90,7 +104,7 @@ def main():
         print("MANIFEST.json written (jsonschema not importable here):", len(checks), "checks")
 
 
-HOOK_COMMITS = []
+HOOK_COMMITS = ["f06e025"]
 
 if __name__ == "__main__":
     main()
